@@ -1,8 +1,12 @@
 #!/usr/bin/env python3
 """C14 — concurrent appends: theorems over the interleaving model (coq/Props/C14.v); forced
 interleavings of real cmsys.AppendRecord calls (goroutines in 1..3 worker processes) validated as
-traces of the model; direct predicates on results and file bytes; thorough: stress under -race."""
-import itertools, os, subprocess, sys
+traces of the model; direct predicates on results and file bytes; stress under -race.
+Second use after an I/O error: appenders whose write(2) the OS refuses (they append to the 'full' device 1:7 - what /dev/full
+is - under a private name next to the record file, never to the path /dev/full itself: ENOSPC) run in the
+same server processes, at every position of the other appenders' interleavings; the calls on the healthy file must
+behave as if the failed calls had never happened (theorem C14_failed_elsewhere_leaves_nothing)."""
+import errno, itertools, os, subprocess, sys
 sys.path.insert(0, os.path.join(os.path.dirname(os.path.abspath(__file__)), "..", "lib"))
 import vf
 
@@ -21,6 +25,26 @@ def interleavings(counts):
                 for r in rec(cs2):
                     yield [t] + r
     return rec(list(counts))
+
+
+def dev_full_refuses_writes():
+    """the precondition of the 'away' appenders: a write(2) to /dev/full is refused with ENOSPC on this machine"""
+    try:
+        fd = os.open("/dev/full", os.O_WRONLY)
+    except OSError:
+        return False
+    try:
+        os.write(fd, b"x")
+        return False
+    except OSError as e:
+        return e.errno == errno.ENOSPC
+    finally:
+        os.close(fd)
+
+
+def insertions(s, t):
+    """the schedule s with thread t (a one-step thread) placed at every position"""
+    return [s[:k] + [t] + s[k:] for k in range(len(s) + 1)]
 
 
 def parse(out):
@@ -92,8 +116,34 @@ def main():
         s = [0] * 4 + [1] * 4 + [2] * 4 + [3] * 4
         rng.shuffle(s)
         cases.append((procs, s))
-    cases = [(cs[0], cs[1], cs[2] if len(cs) > 2 else NINIT) for cs in cases]
-    lines = ["1|%d %d|%s|%s" % (SZ, ni, " ".join(map(str, p)), " ".join(map(str, s))) for p, s, ni in cases]
+    # ---- second use after an I/O error: appenders whose write the OS refuses (200+p: process p, the call goes to the 'full' device)
+    # 4th component: GOMAXPROCS of the worker processes (0 = Go default). With one P whatever a failed call leaves behind
+    # in per-P caches is seen by the very next call; the default setting is exercised as well.
+    away_ok = dev_full_refuses_writes()
+    n_away0 = len(cases)
+    if away_ok:
+        for mp in (1, 0):
+            for ni in (NINIT, 0):
+                for procs in ([200, 0], [200, 1], [201, 1]):             # the failing call at every position of one appender's call
+                    for s in insertions([1, 1, 1, 1], 0):
+                        cases.append((procs, s, ni, mp))
+        for procs in ([0, 0, 200], [0, 1, 200], [0, 1, 201]):             # ... and at every position of 2 appenders' interleavings
+            allp = [s2 for s in interleavings([4, 4]) for s2 in insertions(s, 2)]
+            pick = allp if thorough else rng.sample(allp, 22)
+            for s in pick:
+                cases.append((procs, s, rng.choice([0, 1]), 1))
+        for procs in ([200, 200, 0], [200, 100, 0], [200, 0, 200, 0], [200, 201, 0, 1]):   # several failed calls, with a failed write on the file itself
+            n_ok = sum(1 for p in procs if p < 200)
+            base = []
+            for t, p in enumerate(procs):
+                base += [t] * (1 if p >= 200 else 3 if p >= 100 else 4)
+            for _ in range(60 if thorough else 4):
+                s = list(base)
+                rng.shuffle(s)
+                cases.append((procs, s, rng.choice([0, 1]), rng.choice([1, 1, 0])))
+    n_away = len(cases) - n_away0
+    cases = [(cs[0], cs[1], cs[2] if len(cs) > 2 else NINIT, cs[3] if len(cs) > 3 else 0) for cs in cases]
+    lines = ["1|%d %d%s|%s|%s" % (SZ, ni, " %d" % mp if mp else "", " ".join(map(str, p)), " ".join(map(str, s))) for p, s, ni, mp in cases]
     # run in parallel chunks: each case spawns its own worker processes
     import concurrent.futures
     chunks = [lines[i::8] for i in range(8)]
@@ -103,11 +153,14 @@ def main():
     for k, ch in enumerate(outs):
         for j, o in enumerate(ch):
             io[k + 8 * j] = o
-    c.count(len(lines), "forced interleavings")
-    c.cov["exhaustive_parts"] = ["all 70 interleavings of 2 appenders at the 4 segments, in one process and across two processes, on a file holding one record and on an empty file; 4 slow-holder schedules (1.3 s pause while another process waits for the flock); all 35 interleavings with one appender whose write fails inside the critical section x 4 placements (%d executions)" % n2]
+    c.count(len(lines) - n_away, "forced interleavings")
+    c.cov["exhaustive_parts"] = ["all 70 interleavings of 2 appenders at the 4 segments, in one process and across two processes, on a file holding one record and on an empty file; 4 slow-holder schedules (1.3 s pause while another process waits for the flock); all 35 interleavings with one appender whose write fails inside the critical section x 4 placements (%d executions)" % n2,
+                                "a call whose write(2) the OS refuses (ENOSPC, the 'full' device under a private name) at each of the 5 positions of one appender's call, in the same and in another process, file with a record / empty, GOMAXPROCS 1 and default (60 executions)" if away_ok else "appends to /dev/full not exercised: /dev/full does not refuse writes here"]
+    c.count(n_away, "interleavings with calls whose write the OS refuses")
 
     mlines, midx, traces = [], [], 0
-    for k, ((procs, s, NI), line, o) in enumerate(zip(cases, lines, io)):
+    away_other_error = 0
+    for k, ((procs, s, NI, MP), line, o) in enumerate(zip(cases, lines, io)):
         n = len(procs)
         p = parse(o)
         rep = {"cases": [line], "got": o}
@@ -115,9 +168,10 @@ def main():
             c.violation("append-hang", "appenders did not all return (status %s) for procs=%s schedule=%s" % (o.split()[0], procs, s), rep)
             continue
         ev, rs, fb = p
-        c.nontrivial(("trace", tuple(procs), NI, tuple(ev)))
+        c.nontrivial(("trace", tuple(procs), NI, MP, tuple(ev)))
+        failed_away = [t for t in range(n) if procs[t] >= 200]
         # ---- direct predicates on the implementation's own outputs
-        succ = [(t, idx) for t, (code, idx) in enumerate(rs) if code == 1]
+        succ = [(t, idx) for t, (code, idx) in enumerate(rs) if code == 1 and not (t < n and procs[t] >= 200)]   # successful calls on the record file
         if any(code == 0 for code, _ in rs):
             c.violation("append-unfinished", "a call neither failed nor returned: %s" % rs, rep)
         idxs = [i for _, i in succ]
@@ -126,6 +180,10 @@ def main():
         for t, idx in succ:
             recb = fb[(idx - 1) * SZ: idx * SZ]
             want = [t + 1] * SZ if t < n else [n + 1] * SZ
+            stale = [u for u in failed_away if recb == [u + 1] * SZ and rs[u][0] == 2]
+            if stale:
+                c.violation("append-stale-record-of-failed-call", "thread %d returned index %d but the record stored there is the record of call %d, which had FAILED (its write was refused by the OS, on another file): %s; file %s (procs=%s, GOMAXPROCS=%s, events=%s)"
+                            % (t, idx, stale[0], recb, fb, procs, MP or "default", ev), rep)
             if idx <= NI or recb != want:
                 c.violation("append-torn-or-lost", "thread %d returned index %d but the record there is %s (procs=%s, events=%s)" % (t, idx, recb, procs, ev), rep)
         if len(fb) != SZ * (NI + len(succ)):
@@ -136,8 +194,13 @@ def main():
             c.violation("append-clobber", "earlier records were modified: %s" % fb[:SZ * NI], rep)
         # ---- the observed trace must be a trace of the model with the same outcome
         sch = model_schedule(ev, n)
+        for t in failed_away:
+            if rs[t][0] == 1:
+                c.violation("append-refused-write-reported-as-success", "an append whose write(2) the OS refuses (ENOSPC) returned index %d without error: %s" % (rs[t][1], rs), rep)
+            elif rs[t] != (2, 3):
+                away_other_error += 1          # an error return is what the property allows; only: the refused write was not exercised
         for t, (code, idx) in enumerate(rs[:n]):
-            if procs[t] >= 100 and code != 2:
+            if 100 <= procs[t] < 200 and code != 2:
                 c.violation("append-bad-payload-accepted", "an append whose payload cannot be serialised did not fail: %s" % (rs,), rep)
         mlines.append("1|%d %d|%s|%s|%s" % (SZ, SZ // 2, " ".join(map(str, procs + [0])), " ".join(["200"] * (SZ * NI)), " ".join(map(str, sch))))
         midx.append(k)
@@ -151,25 +214,33 @@ def main():
             if " ".join(m.split()) != " ".join(want.split()):
                 bad.append({"case": lines[k], "impl": io[k], "model_case": ml, "model": m})
         c.cov["traces_validated_against_impl"] = traces
+        c.cov["away_calls_failing_otherwise_than_ENOSPC"] = away_other_error
         if bad:
             c.broken.append({"kind": "correspondence", "where": "observed AppendRecord traces vs Model/C14 replay", "theorem": "trace validation (replay accepts the observed trace with the same results and file)",
                              "mismatches": len(bad), "examples": bad[:3], "log": ""})
     c.sample({"procs": cases[150][0], "schedule": cases[150][1], "records_before": cases[150][2], "observed": io[150]})
     c.sample({"procs": cases[n2 + 1][0], "schedule": cases[n2 + 1][1], "observed": io[n2 + 1]})
+    if n_away:
+        c.sample({"procs": cases[n_away0 + 2][0], "schedule": cases[n_away0 + 2][1], "records_before": cases[n_away0 + 2][2], "GOMAXPROCS": cases[n_away0 + 2][3], "observed": io[n_away0 + 2]})
 
     race_note = ""
     if True:
-        # 16 goroutines x 2 processes hammering one file under the race detector
-        rc, out = vf.sh(["go", "run", "-race", "-tags", "verif", "./cmd/c14stress"], cwd=os.path.join(vf.ROOT, "go", "impl"), env=vf.GOENV, timeout=1200)
+        # 16 goroutines x 2 processes hammering one file under the race detector, every 8th call preceded by an append whose
+        # write the OS refuses (/dev/full). Built WITHOUT the verif tag: the production code, no schedule points (and the verif
+        # crash-point counter in types.BinaryWrite, a plain int of the harness, is not reported once two files are written at once)
+        rc, out = vf.sh(["go", "run", "-race", "./cmd/c14stress"], cwd=os.path.join(vf.ROOT, "go", "impl"), env=vf.GOENV, timeout=1200)
         race_note = out.strip().split("\n")[-1][:300]
         c.count(1, "race stress")
         if rc != 0:
-            c.violation("append-race-stress", "stress under -race failed: %s" % out[-600:], {"cmd": "cd go/impl && go run -race -tags verif ./cmd/c14stress", "got": out[-2000:]})
+            c.violation("append-race-stress", "stress under -race failed: %s" % out[-600:], {"cmd": "cd go/impl && go run -race ./cmd/c14stress", "got": out[-2000:]})
     c.finish(rule="every interleaving of 2 appenders (4 segments each) in-process and cross-process; PRNG(seed)-sampled interleavings of 3 and 4 appenders over 1..3 processes; "
+                  "a call whose write the OS refuses (/dev/full) at every position of one appender's call (enumerated) and at PRNG(seed)-sampled positions of 2 appenders' interleavings, several such calls; "
                   "a case is non-trivial/distinct by its (process assignment, observed event trace)",
              extra={"race_stress": race_note},
              assumptions=["atomicity/exclusivity of flock(2), atomicity of one write(2) under it, lockFDMap accesses atomic under its mutex (race detector in the thorough tier), Go memory model",
-                          "a thread is known to hold its process' table entry from the flock.tabled schedule point; which queued thread obtains a freed flock is observed, not predicted"])
+                          "a thread is known to hold its process' table entry from the flock.tabled schedule point; which queued thread obtains a freed flock is observed, not predicted",
+                          "second use after an I/O error: the refused write is provoked with the 'full' device 1:7 under a private name (own mknod node, else a symlink to /dev/full; ENOSPC on the first byte; the call names that path, so it fails on ANOTHER file than the one observed) and, on the record file itself, with a payload encoding/binary refuses; a write that the OS cuts short in the middle of a record (EFBIG/EDQUOT after some bytes) on the record file itself is not provoked. In the model such a call is one step that changes nothing (cfg.away): that AppendRecord keeps no state between calls besides lockFDMap and the files is what the forced executions test, it is not derived from the Go source",
+                          "per-P caches (sync.Pool and the like) are made deterministic by running the worker processes of these cases with GOMAXPROCS=1 (one half of the enumerated cases also with the default); with several Ps whether a later call meets what a failed call left behind depends on the Go scheduler"])
 
 
 if __name__ == "__main__":
